@@ -495,6 +495,24 @@ class Interp:
                 ev(name, idx, 'out')
         elif op == 'avail':
             ev(name, idx, 'avail', bool(self.locks[st['i']].available))
+        elif op == 'respec':
+            # two short-lived supplies with the same kinds of resources, one after the other (first fractional amounts,
+            # then whole ones): what the second one looks like must not depend on whether the first has been collected
+            r1 = Resources(**st['first'])
+            async with r1.borrow(**{k: v for k, v in list(st['first'].items())[:1]}):
+                ev(name, idx, 'levels', repr(dict(r1.levels)))
+            del r1
+            await (time + num(st.get('pause', 1)))
+            r2 = Resources(**st['second'])
+            part = {k: 1 for k in list(st['second'])[:1]}
+            async with r2.borrow(**part):
+                ev(name, idx, 'levels', repr(dict(r2.levels)))
+            ev(name, idx, 'levels', repr(dict(r2.levels)))
+            try:
+                async with r2.claim(**st['second']):
+                    ev(name, idx, 'claimed')
+            except ResourcesUnavailable:
+                ev(name, idx, 'unavailable')
         elif op == 'sampler':
             # a user-written async generator that owns a lock for as long as it is being iterated; the consumer keeps it
             # in a variable and works on every sample for a while
